@@ -595,6 +595,10 @@ class UTPM(Ring, RawAlgorithmsMixIn):
         self.data[...] = (self ** r).data
         return self
 
+    def __ifloordiv__(self, rhs):
+        self.data[...] = (self // rhs).data
+        return self
+
     __div__ = __truediv__
     __idiv__ = __itruediv__
     __rdiv__ = __rtruediv__
